@@ -70,12 +70,8 @@ func runC05(c *kit.Ctx) {
 				nApp++
 			}
 		})
-		var cblParam *ssa.Parameter
-		for _, pa := range mp.Params {
-			if pa.Name() == "cellblocksLen" {
-				cblParam = pa
-			}
-		}
+		// marshalProto(rpc, callID uint32, request, cellblocksLen uint32): the second uint32 parameter
+		cblParam := paramOfType(mp, "uint32", 1)
 		if put == nil || cblParam == nil || nApp != 4 {
 			c.Unk(mp, "frame-shape", mp.Pos(), fmt.Sprintf("marshalProto no longer has the shape PutUint32(total) + 4 appends (found %d)", nApp))
 		} else {
@@ -232,7 +228,7 @@ func runC05(c *kit.Ctx) {
 					return
 				}
 				// value is the address of the spilled cellblocksLen parameter
-				if a, ok := st.Val.(*ssa.Alloc); ok && a.Comment == "cellblocksLen" {
+				if a, ok := st.Val.(*ssa.Alloc); ok && paramOfType(mp, "uint32", 1) != nil && a == spillOf(paramOfType(mp, "uint32", 1)) {
 					for _, f := range kit.FactsAt(st.Block()) {
 						if cmp, ok := kit.CanonCmp(f.Cond, f.Pol); ok && cmp.Op == token.GTR {
 							if l, ok := cmp.X.(*ssa.UnOp); ok && l.X == ssa.Value(a) {
@@ -249,12 +245,7 @@ func runC05(c *kit.Ctx) {
 	// ---- R4 ---------------------------------------------------------------
 	c.StartRule("R4", "header provenance", 4)
 	{
-		var rpcParam *ssa.Parameter
-		for _, pa := range mp.Params {
-			if pa.Name() == "rpc" {
-				rpcParam = pa
-			}
-		}
+		rpcParam := paramOfType(mp, "/hrpc.Call", 0)
 		fields := map[string]ssa.Value{}
 		kit.Instrs(mp, func(in ssa.Instruction) {
 			if st, ok := in.(*ssa.Store); ok {
@@ -273,7 +264,7 @@ func runC05(c *kit.Ctx) {
 		}
 		c.Check(okName, mp, "method-name", mp.Pos(), "method_name = rpc.Name()", "the header's method name is not rpc.Name() of the call being sent")
 		a, isAlloc := fields["CallId"].(*ssa.Alloc)
-		c.Check(isAlloc && a.Comment == "callID", mp, "call-id", mp.Pos(), "call_id = &callID (the parameter)", "the header's call id is not the callID parameter: a pooled header could keep a stale id")
+		c.Check(isAlloc && paramOfType(mp, "uint32", 0) != nil && a == spillOf(paramOfType(mp, "uint32", 0)), mp, "call-id", mp.Pos(), "call_id = &callID (the parameter)", "the header's call id is not the callID parameter: a pooled header could keep a stale id")
 		okPrio := false
 		if pa, ok := fields["Priority"].(*ssa.Alloc); ok {
 			for _, st := range kit.StoresTo(pa) {
